@@ -31,7 +31,7 @@ type TSSSpec struct {
 }
 
 type Step struct {
-	K string `json:"k"` // gov | raw | update | recv | ack
+	K string `json:"k"` // gov | gen | raw | update | recv | ack
 	// registrations
 	Addr   string   `json:"addr,omitempty"`
 	Chains []string `json:"chains,omitempty"`
@@ -226,6 +226,8 @@ func genSpec(r *hlib.Rand, id int, nsteps int) Spec {
 			}
 			if r.Chance(1, 30) {
 				st.K = "raw" // genesis path: no validation
+			} else if r.Chance(1, 10) {
+				st.K = "gen" // genesis path with GenesisState.Validate
 			}
 			ok := st.K == "raw" || (len(st.Addrs) > 0 && len(st.Addrs) == len(st.Chains))
 			if _, _, isAcct := acctOf(st.Addr); ok && (isAcct || st.K == "raw") {
@@ -405,7 +407,7 @@ func (w *World) runStep(st Step, canon map[string]string, bech map[string]bool) 
 	var msg sdk.Msg
 	var ackPacket *packettypes.Packet
 	switch st.K {
-	case "gov", "raw":
+	case "gov", "raw", "gen":
 		note(st.Addr)
 	default:
 		signer = w.accts[st.Signer]
@@ -552,6 +554,14 @@ func (w *World) runStep(st Step, canon map[string]string, bech map[string]bool) 
 			o.Class, o.Err = 1, short(err.Error())
 		} else {
 			o.Class = classOf(func() error { return w.gov(A.GetContext(), p) })
+		}
+	case "gen":
+		// genesis path WITH GenesisState.Validate's per-relayer check, then InitGenesis' RegisterRelayers
+		ir := clienttypes.IdentifiedRelayer{Address: st.Addr, Chains: st.Chains, Addresses: st.Addrs}
+		if err := ir.Validate(); err != nil {
+			o.Class, o.Err = 1, short(err.Error())
+		} else {
+			o.Class = classOf(func() error { ck.RegisterRelayers(A.GetContext(), st.Addr, st.Chains, st.Addrs); return nil })
 		}
 	case "raw":
 		o.Class = classOf(func() error { ck.RegisterRelayers(A.GetContext(), st.Addr, st.Chains, st.Addrs); return nil })
